@@ -1,6 +1,6 @@
 import KeepVerif.DriverLib
 import KeepVerif.Model.C11
-open KeepVerif KeepVerif.C09 KeepVerif.C11
+open KeepVerif KeepVerif.C09 KeepVerif.C10 KeepVerif.C11
 
 def parseStream (s : String) : Option (List Nat) :=
   if s = "-" || s = "" then some [] else (s.splitOn ".").mapM String.toNat?
@@ -48,6 +48,7 @@ def showEv : Ev → Option String
   | .announce n _ => some s!"a{n}"
   | .listen n to inc => some s!"l{n}:{to}:{showDots inc}"
   | .attempt n st to ex _ => some s!"f{n}:{st}:{to}:{showDots ex}"
+  | .dattempt n st to ex _ => some s!"f{n}:{st}:{to}:{showDots ex}"
   | .signal n => some s!"s{n}"
   | .waitDone _ => some "d"
   | .retOk _ to => some s!"=ok:{to}"
@@ -79,7 +80,22 @@ def parseCase (line : String) : Option Case :=
     let s0 ← s0.toNat?
     let sc ← (splitList script).mapM parseSStep
     if sc.any (fun s => s.ready.length > thr) || member < 1 || member > n then none
-    pure ⟨signingConsts, s0, sgRun signingConsts n thr member s0 sc, sc.map (·.cur)⟩
+    -- one seat per operator, at most `thr` ready members: the selection has no choice
+    let sel := fun (_ : Nat) (ready : List Nat) =>
+      signingSelection (fun k => List.range k) (fun k => List.range k) (List.range n) thr ready
+    pure ⟨signingConsts, s0, sgRun signingConsts sel n thr member s0 sc, sc.map (·.cur)⟩
+  | ["sloopx", ops, thr, member, s0, _msg, script, streams] => do
+    let ops ← parseNats ops
+    let thr ← thr.toNat?
+    let member ← member.toNat?
+    let s0 ← s0.toNat?
+    let sc ← (splitList script).mapM parseSStep
+    let sts ← (streams.splitOn "|").mapM parseStream
+    if member < 1 || member > ops.length then none
+    -- attempt n: operator shuffle seeded attemptSeed+n-1, surplus trimming seeded attemptSeed+n
+    let sel := fun (k : Nat) (ready : List Nat) =>
+      signingSelection (goShuffle (sts.getD (k - 1) [])) (goShuffle (sts.getD k [])) ops thr ready
+    pure ⟨signingConsts, s0, sgRun signingConsts sel ops.length thr member s0 sc, sc.map (·.cur)⟩
   | ["dloop", ops, q, member, s0, _seed, script, st] => do
     let ops ← parseNats ops
     let q ← q.toNat?
@@ -99,38 +115,48 @@ def model (line : String) : String :=
 /-! monitor: rebuild events from the observed tokens (the attempt number of `c`/`w` tokens is their
     running count) and evaluate `C11.holds` on them -/
 
-def nat? (s : String) : Option Nat := s.toNat?
+def nat! (s : String) : Except String Nat :=
+  match s.toNat? with
+  | some n => pure n
+  | none => throw "unparsable-observation"
 
-def parseTokens (dkg : Bool) (seen : List (Option Nat)) : Nat → List String → Option (List Ev)
-  | _, [] => some []
+def dots! (s : String) : Except String (List Nat) :=
+  match parseDots s with
+  | some l => pure l
+  | none => throw "unparsable-observation"
+
+def stepMsg := "attempt-number-out-of-step-with-loop-iteration"
+
+def parseTokens (dkg : Bool) (seen : List (Option Nat)) : Nat → List String → Except String (List Ev)
+  | _, [] => pure []
   | n, t :: rest =>
     let seenOf (k : Nat) : Option Nat := (seen.getD (k - 1) none)
     if t = "c" then (parseTokens dkg seen (n + 1) rest).map (Ev.cur (n + 1) :: ·)
     else if t = "d" then (parseTokens dkg seen n rest).map (Ev.waitDone n :: ·)
     else if t.startsWith "=" then
       match t.splitOn ":" with
-      | ["=ok", to] => do let to ← nat? to; let r ← parseTokens dkg seen n rest; pure (Ev.retOk n to :: r)
+      | ["=ok", to] => do let to ← nat! to; let r ← parseTokens dkg seen n rest; pure (Ev.retOk n to :: r)
       | _ => parseTokens dkg seen n rest
     else
       let body := (t.drop 1).toString
       let k := if dkg && t.startsWith "w" then n + 1 else n
       match t.front, body.splitOn ":" with
       | 'w', [b] => do
-        let b ← nat? b; let r ← parseTokens dkg seen k rest; pure (Ev.wait k b :: r)
+        let b ← nat! b; let r ← parseTokens dkg seen k rest; pure (Ev.wait k b :: r)
       | 'a', [a] => do
-        let a ← nat? a; let r ← parseTokens dkg seen n rest
-        if a ≠ n then none else pure (Ev.announce a (seenOf a) :: r)
+        let a ← nat! a; let r ← parseTokens dkg seen n rest
+        if a ≠ n then throw stepMsg else pure (Ev.announce a (seenOf a) :: r)
       | 's', [a] => do
-        let a ← nat? a; let r ← parseTokens dkg seen n rest
-        if a ≠ n then none else pure (Ev.signal a :: r)
+        let a ← nat! a; let r ← parseTokens dkg seen n rest
+        if a ≠ n then throw stepMsg else pure (Ev.signal a :: r)
       | 'l', [a, to, inc] => do
-        let a ← nat? a; let to ← nat? to; let inc ← parseDots inc; let r ← parseTokens dkg seen n rest
-        if a ≠ n then none else pure (Ev.listen a to inc :: r)
+        let a ← nat! a; let to ← nat! to; let inc ← dots! inc; let r ← parseTokens dkg seen n rest
+        if a ≠ n then throw stepMsg else pure (Ev.listen a to inc :: r)
       | 'f', [a, st, to, ex] => do
-        let a ← nat? a; let st ← nat? st; let to ← nat? to; let ex ← parseDots ex
+        let a ← nat! a; let st ← nat! st; let to ← nat! to; let ex ← dots! ex
         let r ← parseTokens dkg seen n rest
-        if a ≠ n then none else pure (Ev.attempt a st to ex (seenOf a) :: r)
-      | _, _ => none
+        if a ≠ n then throw stepMsg else pure (Ev.attempt a st to ex (seenOf a) :: r)
+      | _, _ => throw "unparsable-observation"
 
 def monitor (op obs : String) : String :=
   match parseCase op with
@@ -140,7 +166,8 @@ def monitor (op obs : String) : String :=
     | [main, async] =>
       let dkg := (splitWs op).head? == some "dloop"
       match parseTokens dkg cs.seen 0 (splitWs main), parseNats async with
-      | some evs, some blocks =>
+      | .error e, _ => "FAIL " ++ e
+      | .ok evs, some blocks =>
         let nmax := evs.length + 1
         -- every block a side goroutine waited for is the announcement end or the timeout of an attempt
         let asyncOk := blocks.all fun b => (List.range (nmax + 1)).any fun i =>
@@ -149,7 +176,7 @@ def monitor (op obs : String) : String :=
         else if !asyncOk then "FAIL stop-signal-block-not-a-window-boundary"
         else if !noOverlap cs.c evs then "FAIL attempt-starts-before-previous-timeout"
         else "ok"
-      | _, _ => "FAIL unparsable-observation"
+      | .ok _, none => "FAIL unparsable-observation"
     | _ => "FAIL unparsable-observation " ++ obs
 
 def main (args : List String) : IO UInt32 := driverMain model monitor args
